@@ -273,6 +273,14 @@ func (m *Machine) callValue(s *State, f *Frame, x *ssa.Call, cc *ssa.CallCommon,
 					return nil
 				}
 			}
+			if sl.len == 0 {
+				// an empty byte string is a valid encoding of the all-default message
+				if pt, ok := callee.Signature.Recv().Type().(*types.Pointer); ok {
+					s.store(args[0].(Ptr), m.zero(pt.Elem()))
+				}
+				setRes(IfaceV{})
+				return nil
+			}
 			// bytes that were not produced by marshalling this message type: a parse error
 			m.nerr++
 			m.stubs["UnmarshalVT of bytes that are not a marshalled message of that type: error"]++
